@@ -608,9 +608,10 @@ fn build_debug_expr(
             if !field.hattrs.is_debug_ignore() {
                 let e = to_expr(field);
                 let member = field.member();
+                // `&#e` (a reference to the field reference) is `Sized` even if the field is not
                 expr.extend(match is_named {
-                    true => quote! (.field(::core::stringify!(#member), #e)),
-                    false => quote! (.field(#e)),
+                    true => quote! (.field(::core::stringify!(#member), &#e)),
+                    false => quote! (.field(&#e)),
                 });
                 field.push_bounds_to(use_bounds, kind, wcb);
             }
